@@ -318,7 +318,8 @@ class Engine:
         if c.setup:
             c.setup(p, env)
         self.install_fs_hooks(p, c)
-        for r in c.requires:
+        vreq = c.extra.get("variant_requires")
+        for r in list(c.requires) + (list(vreq[p.variant]) if vreq else []):
             props, lab, expr = p._clause(r, p.func_stack[-1])
             p.assume(p.eval_contract_expr(expr))
         # vacuity guard: the precondition must be satisfiable
